@@ -23,7 +23,7 @@ Print Assumptions C08_order_and_isolation.
 (** spelled out for the hand-off: the envelope is the open transaction and nothing else *)
 Theorem C08_handoff_is_open_transaction : forall o chunks pre env msg post,
   run_session o chunks = pre ++ Handoff env msg :: post ->
-  exists a f rs, trace_run o pre a_init = Some a /\ a_txn a = Some (f, rs) /\ env = env_of (Some (f, rs)).
+  exists a f rs, trace_run o pre a_init = Some a /\ a_txn a = Some (f, rs) /\ env = env_of (o_liphost o) (Some (f, rs)).
 Proof. exact handoff_is_open_transaction. Qed.
 Print Assumptions C08_handoff_is_open_transaction.
 
@@ -41,7 +41,7 @@ Definition ex_oracles : oracles :=
                             | _ => AP_nobracket end;
      o_ext := fun _ => Ext_ok 0 0; o_relay := 0%Z; o_mx := fun _ => 0;
      o_qq := fun k => match k with 0 => QQ_exit 31 | _ => QQ_ok end;
-     o_databytes := 0%N; o_trace := fun _ _ _ _ _ => [88; 10]%N |}.
+     o_databytes := 0%N; o_liphost := []; o_trace := fun _ _ _ _ _ => [88; 10]%N |}.
 Definition ex_chunks : list bytes :=
   [ [72;69;76;79;32;120;13;10]; [77;65;73;76;32;70;82;79;77;58;60;97;62;13;10];
     [82;67;80;84;32;84;79;58;60;98;62;13;10]; [68;65;84;65;13;10]; [104;105;13;10;46;13;10];
